@@ -129,19 +129,136 @@ ty = norm(src("breakpad-symbols/src/sym_file/types.rs"))
 if "if inlinee.depth != depth { return None; }" not in ty:
     die("get_inlinee_at_depth no longer rejects a candidate of another depth (look_sound of c03_inline_levels_bound)")
 
+# ---- 8. processor.rs into_process_state: the two passes over the thread list (coq/C03/ProcessModel.v)
+ips = norm(fn_body(pr, r"pub async fn into_process_state<P, T>\(", "into_process_state"))
+
+
+def in_order(text, frags, what):
+    """every fragment occurs, each after the previous one; returns nothing, dies otherwise"""
+    at = 0
+    for f in frags:
+        k = text.find(f, at)
+        if k < 0:
+            die(what + ": expected fragment missing or out of order (the model's order of steps must be re-read): " + f)
+        at = k + len(f)
+
+
+# first pass: the dump-writer thread returns early BEFORE the context selection touches requesting_thread
+in_order(ips, [
+    "let crashing_thread_id = self.exception.as_ref().map(|e| e.get_crashing_thread_id());",
+    "let mut requesting_thread = None;",
+    ".enumerate() .map(|(i, thread)| {",
+    "let id = thread.raw.thread_id;",
+    "if self.dump_thread_id == Some(id) {",
+    "CallStack::with_info(id, CallStackInfo::DumpThreadSkipped);",
+    "return skipped; }",
+    "let thread_context = thread.context(&self.dump_system_info, self.misc_info.as_ref());",
+    "let context = if ",
+    "requesting_thread = Some(i);",
+    "} else { thread_context.as_deref() };",
+    "let (info, frames) = if let Some(context) = context { let ctx = context.clone(); ( CallStackInfo::Ok, "
+    "vec![StackFrame::from_context(ctx, FrameTrust::Context)], ) } else { (CallStackInfo::MissingContext, vec![]) };",
+    "CallStack { frames, info, thread_id: id,",
+], "into_process_state (first pass)")
+OPT_NAMES = {"crashing_thread_id": "crashing", "self.requesting_thread_id": "requesting",
+             "exception_context.as_deref()": "exception_context", "thread_context.as_deref()": "thread_context",
+             "memory_list.memory_at_address(stack_ptr)": "by_stack_ptr", "stack_memory": "stack_memory"}
+
+
+def or_expr(m, what):
+    a, b = m.group(1).strip(), m.group(2).strip()
+    if a not in OPT_NAMES or b not in OPT_NAMES:
+        die(what + ": unrecognised operands of .or(): %r, %r" % (a, b))
+    return OPT_NAMES[a], OPT_NAMES[b]
+
+
+m = re.search(r"let context = if ([\w\.]+)\.or\(([\w\.]+)\) == Some\(id\) \{ requesting_thread = Some\(i\); "
+              r"([\w\.\(\)]+?)\.or\(([\w\.\(\)]+?)\) \} else \{", ips)
+if not m:
+    die("into_process_state: the context selection is no longer `if A.or(B) == Some(id) { requesting_thread = Some(i); C.or(D) } else {..}`")
+want_a, want_b = or_expr(m, "wanted thread id")
+
+
+class _M:            # the second .or() of the same match
+    def __init__(self, a, b):
+        self.a, self.b = a, b
+
+    def group(self, i):
+        return self.a if i == 1 else self.b
+
+
+ctx_a, ctx_b = or_expr(_M(m.group(3), m.group(4)), "selected context")
+if {want_a, want_b} != {"crashing", "requesting"} or {ctx_a, ctx_b} != {"exception_context", "thread_context"}:
+    die("into_process_state: unexpected operands in the context selection")
+# second pass: order of the steps of one thread's future
+in_order(ips, [
+    "futures_util::future::join_all( state .threads .iter_mut() .zip(self.thread_list.threads.iter()) .enumerate() .map(|(i, (stack, thread))| async move {",
+    "let mut stack_memory = thread.stack_memory(memory_list);",
+    "let stack_ptr = stack .frames .first() .map(|ctx_frame| ctx_frame.context.get_stack_pointer());",
+    "if let Some(stack_ptr) = stack_ptr { let contains_stack_ptr = stack_memory .as_ref() .and_then(|memory| memory.get_memory_at_address::<",
+    ">(stack_ptr)) .is_some(); if !contains_stack_ptr { stack_memory =",
+    "walk_stack( i,",
+    "stack, stack_memory, modules, system_info, symbol_provider, ) .await;",
+    "for frame in &mut stack.frames {",
+    "if frame.module.is_none() {",
+    "for unloaded in unloaded_modules.modules_at_address(frame.instruction) { let offset = frame.instruction - unloaded.raw.base_of_image;",
+    "frame.unloaded_modules = offsets;",
+    "if options.recover_function_args { arg_recovery::fill_arguments(stack, stack_memory); }",
+    "reporter.inc_processed_threads();",
+], "into_process_state (second pass)")
+m = re.search(r"memory\.get_memory_at_address::<(u8|u16|u32|u64|u128)>\(stack_ptr\)", ips)
+if not m:
+    die("into_process_state: the stack-pointer probe is no longer get_memory_at_address::<uN>(stack_ptr)")
+probe_bytes = int(m.group(1)[1:]) // 8
+m = re.search(r"if !contains_stack_ptr \{ stack_memory = (.+?)\.or\(([\w\.]+)\); \}", ips)
+if not m:
+    die("into_process_state: the fall-back is no longer `stack_memory = X.or(Y);`")
+fb_a, fb_b = or_expr(m, "stack-memory fall-back")
+if {fb_a, fb_b} != {"by_stack_ptr", "stack_memory"}:
+    die("into_process_state: unexpected operands in the stack-memory fall-back")
+# MinidumpThread::stack_memory and MinidumpMemory::read's empty-descriptor test; walk_stack's prologue
+for need in ("self.stack.as_ref().map(UnifiedMemory::Memory).or_else(|| { let stack_addr = self.raw.stack.start_of_memory_range; "
+             "let memory = memory_list.memory_at_address(stack_addr)?; Some(memory) })",
+             "if desc.memory.rva == 0 || desc.memory.data_size == 0 {",
+             "let stack = MinidumpMemory::read(&raw.stack, all, endian).ok();"):
+    if need not in mdn:
+        die("minidump.rs: thread stack memory changed shape, expected: " + need)
+if "let stack_memory = stack_memory.and_then(|stack_memory| stack_memory.memory_range().map(|_| stack_memory));" not in ws:
+    die("walk_stack: the prologue no longer drops a stack memory without a valid memory_range()")
+in_order(ws, ["let mut has_new_frame = !stack.frames.is_empty();", "while has_new_frame {",
+              "fill_source_line_info(frame, modules, symbol_provider).await;",
+              "let Some(stack_memory) = stack_memory else { break; };",
+              "if callee_frame.trust != FrameTrust::Context",
+              "let new_frame = get_caller_frame(",
+              "if let Some(new_frame) = new_frame { stack.frames.push(new_frame); } else { has_new_frame = false; }"],
+         "walk_stack (order of the loop body)")
+
+
 ALL = ["CpuX86", "CpuAmd64", "CpuArm", "CpuArm64", "CpuArm64Old", "CpuMips", "CpuPpc", "CpuPpc64", "CpuSparc", "CpuUnknown"]
 out = """(* GENERATED by translate/c03_sites.py from minidump-unwind/src/lib.rs, minidump-processor/src/{op_analysis,processor,process_state}.rs,
    minidump/src/minidump.rs, breakpad-symbols/src/sym_file/{mod,types}.rs — do not edit.
    Besides these values the translator pins the shape of: get_caller_frame's dispatch, walk_stack's loop, get_thread_instruction_bytes,
    the implicit stack accesses, memory_range / from_regions / memory_at_address, check_for_guard_pages, LinuxProcLimits::from,
-   fill_symbol's inline-level loop and get_inlinee_at_depth's depth test. *)
+   fill_symbol's inline-level loop and get_inlinee_at_depth's depth test; (round 5) the order of the steps of both passes of
+   into_process_state, MinidumpThread::stack_memory, MinidumpMemory::read's empty-descriptor test, walk_stack's prologue and loop-body order. *)
 From Coq Require Import ZArith List. Import ListNotations. Open Scope Z_scope.
 (* the context variants with a `=> <arch>::get_caller_frame(ctx, args).await` arm, in source order; everything else is `_ => None` *)
 Inductive gen_cpu := %s.
 Definition gen_unwinder_arms : list gen_cpu := [%s].
 Definition gen_guard_memory_max_size : Z := %d.
 Definition gen_inline_first_depth : Z := %d.
-""" % (" | ".join("G" + c for c in ALL), "; ".join("G" + c for c in unwinders), guard_max, inline_start)
+(* into_process_state (round 5).  `a.or(b)` of Option: *)
+Definition gen_or {A : Type} (a b : option A) : option A := match a with Some _ => a | None => b end.
+(* `if %s.or(%s) == Some(id)`: the thread id a thread must have to count as the requesting thread *)
+Definition gen_wanted_id (crashing requesting : option Z) : option Z := gen_or %s %s.
+(* `%s.or(%s)`: the context such a thread is walked from *)
+Definition gen_selected_context {A : Type} (exception_context thread_context : option A) : option A := gen_or %s %s.
+(* `if !contains_stack_ptr { stack_memory = %s.or(%s) }` *)
+Definition gen_stack_fallback {A : Type} (by_stack_ptr stack_memory : option A) : option A := gen_or %s %s.
+(* contains_stack_ptr = stack_memory.get_memory_at_address::<u%d>(stack_ptr).is_some(): size of the probe in bytes *)
+Definition gen_stack_probe_bytes : Z := %d.
+""" % (" | ".join("G" + c for c in ALL), "; ".join("G" + c for c in unwinders), guard_max, inline_start,
+       want_a, want_b, want_a, want_b, ctx_a, ctx_b, ctx_a, ctx_b, fb_a, fb_b, fb_a, fb_b, probe_bytes * 8, probe_bytes)
 os.makedirs(outdir, exist_ok=True)
 path = os.path.join(outdir, "C03Sites.v")
 old = open(path).read() if os.path.exists(path) else None
